@@ -45,15 +45,40 @@ def run_line_job(job, seed):
     validated = 0
     sample = None
     n_e2 = job.get('e2', 3)
+    trace = bool(job.get('trace'))
+    e2_viol = []
     for dg, path in list(res.terminals.items())[:n_e2]:
-        d2 = run_e2(spec, lambda: make_monitors(mons), path)
+        try:
+            d2 = run_e2(spec, lambda: make_monitors(mons), path, trace=trace)
+        except Violation as v:
+            # violations only the real run loop can show (event trace); reported with the path, gated like the others
+            e2_viol.append({'clause': v.clause, 'detail': v.detail, 'path': [list(x) for x in path],
+                            'scenario': spec['name']})
+            if len(e2_viol) >= 3:
+                break
+            continue
+        except HarnessError:
+            raise
+        except Exception as e:
+            if not trace:
+                raise
+            clause, detail = runner.classify_exception(e)
+            e2_viol.append({'clause': clause, 'detail': 'with trace=True: ' + detail, 'path': [list(x) for x in path],
+                            'scenario': spec['name']})
+            if len(e2_viol) >= 3:
+                break
+            continue
         if d2 != dg:
             raise HarnessError(f'{spec["name"]}: E1/E2 divergence: fork-derived final state {dg} but the real '
                                f'simulate() reached {d2} on the same choice list')
         validated += 1
         if sample is None:
             sample = [list(x) for x in path]
-    return {'result': res.to_json(), 'violations': res.violations, 'validated': validated, 'sample': sample}
+    rj = res.to_json()
+    rj['violations'] += len(e2_viol)
+    if trace:
+        rj['facts']['traced_replays'] = validated
+    return {'result': rj, 'violations': res.violations + e2_viol, 'validated': validated, 'sample': sample}
 
 
 def replay_line(job, path):
@@ -63,7 +88,8 @@ def replay_line(job, path):
     steps = {'n': 0}
     try:
         w = None
-        dg = run_e2(spec, lambda: make_monitors(mons), [tuple(x) for x in path], prefix_ok=True)
+        dg = run_e2(spec, lambda: make_monitors(mons), [tuple(x) for x in path], prefix_ok=True,
+                    trace=bool(job.get('trace')))
         return {'final': dg}
     except Violation as v:
         return {'clause': v.clause, 'detail': v.detail, 'step': getattr(v, 'mc_steps', 0)}
@@ -77,6 +103,6 @@ def replay_line(job, path):
 runner.register('line', run_line_job, replay_line)
 
 
-def line_job(spec, monitors, e2=3, **caps):
+def line_job(spec, monitors, e2=3, trace=False, **caps):
     return {'kind': 'line', 'name': spec['name'], 'spec': spec, 'monitors': list(monitors), 'e2': e2,
-            'caps': caps}
+            'caps': caps, 'trace': trace}
